@@ -206,8 +206,10 @@ func c09Cases(r *ev.Run, rng *rand.Rand, d ntske.Data, tag string) []*c09Case {
 		cases = append(cases, c)
 	}
 	fills := []string{"zero", "random", "copied-valid"}
-	if r.Thorough() { // three more draws of the random remainder
-		fills = append(fills, "random", "random", "random")
+	if r.Thorough() { // many more draws of the random remainder
+		for i := 0; i < 60; i++ {
+			fills = append(fills, "random")
+		}
 	}
 	for fb := 0; fb < 256; fb++ {
 		for _, l := range lengths {
@@ -242,7 +244,7 @@ func c09Cases(r *ev.Run, rng *rand.Rand, d ntske.Data, tag string) []*c09Case {
 	}
 	// the valid first bytes with random remaining header fields
 	for _, fb := range []byte{0x23, 0x1b, 0x13, 0x08, 0xe3, 0xdb, 0xd3, 0xc8} {
-		for k := 0; k < r.Pick(24, 400); k++ {
+		for k := 0; k < r.Pick(24, 2000); k++ {
 			b := make([]byte, 48)
 			for i := range b {
 				b[i] = byte(rng.IntN(256))
